@@ -65,6 +65,8 @@ def gen_location(rng, yamlable=False):
         for name in ("region", "farmid"):
             if rng.random() < 0.7:
                 props[name] = rng.choice([f + 1, 2.5 * (f + 1)])
+        if rng.random() < 0.4:
+            props["name"] = "farm %d" % f           # a text-valued property
         feats.append(dict(type="Feature", properties=props, geometry=dict(type="MultiPolygon", coordinates=[[ring(p)] for p in ps])))
     return form, json.dumps(dict(type="FeatureCollection", features=feats))
 
@@ -108,6 +110,11 @@ def gen_group(rng, g, yamlable=False, force_num=None):
         for nm in rng.sample(["w", "len", "depth", "q"], rng.randrange(1, 3)):
             ex[nm] = gen_attr(rng, num, yamlable)
         conf["attrs"] = ex
+    # non-numeric attributes (text labels, booleans): defined by some groups only
+    if rng.random() < 0.3:
+        conf["label"] = ["%s%d" % (rng.choice(["a", "farm ", "æ"]), i) for i in range(num)]
+    if rng.random() < 0.2:
+        conf.setdefault("attrs", {})["flag"] = [bool((i + g) % 2) for i in range(num)]
     # markers used by the oracle
     conf.setdefault("attrs", {})
     conf["attrs"]["grp"] = g + 1
